@@ -189,6 +189,33 @@ def prop_status(pid: str, timeout: int = 300) -> Dict[str, Any]:
     return {"ok": p.returncode == 0, "theorems": theorems, "log": out[-4000:]}
 
 
+def coqchk(pid: str, timeout: int = 1500) -> Dict[str, Any]:
+    """Re-check Props/<pid>.vo and everything it depends on with the independent checker; `-o` prints the context
+    summary (axioms, type-in-type, unsafe fixpoints, assumed positivity).  Serialised (memory: up to ~4 GB per run)."""
+    import fcntl
+    t0 = time.time()
+    lockf = open(os.path.join(COQ, ".coqchk.lock"), "w")
+    try:
+        fcntl.flock(lockf, fcntl.LOCK_EX)
+        with _lock(False):
+            p = subprocess.run(["timeout", str(timeout), "coqchk", "-silent", "-o", "-Q", COQ, "DS", f"DS.Props.{pid}"],
+                               capture_output=True, text=True, cwd=COQ)
+    finally:
+        lockf.close()
+    out = p.stdout + p.stderr
+    summary: Dict[str, Any] = {}
+    for key, label in (("axioms", "Axioms"), ("type_in_type", "Constants/Inductives relying on type-in-type"),
+                       ("unsafe_fix", "Constants/Inductives relying on unsafe (co)fixpoints"),
+                       ("assumed_positivity", "Inductives whose positivity is assumed")):
+        m = re.search(r"\* " + re.escape(label) + r":(.*?)(?=\n\* |\Z)", out, re.S)
+        if m is None:
+            summary[key] = "missing-output"
+        else:
+            body = m.group(1).strip()
+            summary[key] = [] if body == "<none>" else [ln.strip() for ln in body.splitlines() if ln.strip()]
+    return {"ok": p.returncode == 0 and "CONTEXT SUMMARY" in out, "summary": summary, "wall_s": time.time() - t0, "log": out[-3000:]}
+
+
 def coq_eval(requires: Iterable[str], exprs: List[str], preamble: str = "", timeout: int = 600,
              chunk: int = 400) -> List[Any]:
     """Evaluate each expression with vm_compute inside Coq; return the parsed values.
